@@ -8,16 +8,19 @@ namespace coloquinte {
 DetailedPlacement DetailedPlacement::fromIspdCircuit(const Circuit &circuit) {
   // Represent fixed cells with -1 width so they are not considered
   int rowHeight = circuit.rowHeight();
-  std::vector<int> widths = circuit.cellWidth_;
+  std::vector<int> widths(circuit.nbCells());
   std::vector<Rectangle> obstacles;
   for (int c = 0; c < circuit.nbCells(); ++c) {
     if (circuit.cellIsFixed_[c]) {
+      // Fixed obstructions are already removed from the rows
       widths[c] = -1;
-    }
-    if (circuit.cellHeight_[c] != rowHeight) {
+    } else if (circuit.placedHeight(c) != rowHeight) {
+      // Movable cells that are not optimized are obstacles for the others
       widths[c] = -1;
       Rectangle pl = circuit.placement(c);
       obstacles.push_back(pl);
+    } else {
+      widths[c] = circuit.placedWidth(c);
     }
   }
   std::vector<int> cellIndex;
